@@ -21,7 +21,7 @@ def run(cmd, cwd=None, timeout=600):
 def main():
     for prop in sys.argv[1:]:
         src = '/tmp/wt/%s/mutants' % prop
-        for k in (1, 2, 3):
+        for k in (1, 2, 3, 4):
             diff = os.path.join(src, 'm%d.diff' % k)
             if not os.path.isfile(diff):
                 continue
